@@ -147,5 +147,10 @@ with jmembers : list N -> list (list N * value) -> Prop :=
 | Ms_one tk k tv v : jkey tk k -> jelement tv v -> jmembers (tk ++ 58 :: tv) [(k, v)]
 | Ms_cons tk k tv v ts ms : jkey tk k -> jelement tv v -> jmembers ts ms -> jmembers (tk ++ 58 :: tv ++ 44 :: ts) ((k, v) :: ms).
 
+(* what the map of V_object holds for a name: the value of the LAST member with that name
+   (JsonGrammarProofs.object_last_duplicate_wins: assoc_lookup k (assoc_of_list ms) = last_binding k ms) *)
+Definition last_binding (k : list N) (ms : list (list N * value)) : option value :=
+  fold_left (fun r kv => if bytes_eqb k (fst kv) then Some (snd kv) else r) ms None.
+
 (* JSON-text = ws value ws; nesting is unbounded *)
 Definition jtext : list N -> value -> Prop := jelement.
